@@ -391,7 +391,9 @@ func runFrameCheck(eng *Engine) (sites []*frameSite, fa *frameAnalysis) {
 	fa.findEmptyGlobals()
 	for round := 0; round < 60; round++ {
 		fa.changed = false
-		for _, fn := range fa.order {
+		// taint flows through every function of the module (constructors are not reachable from the entry points
+		// but decide what the instances hold); write sites are only checked in the reachable functions
+		for _, fn := range fa.eng.AllFuncs {
 			fa.propagate(fn)
 		}
 		if !fa.changed {
